@@ -101,7 +101,7 @@ theorem decodeRR_returns (ip6 : Bytes → PtrIP) (e : DNSEntry) (p : Bytes) (off
         · exact returns_ok _
         split
         · split
-          · exact returns_err _
+          · exact returns_ok _
           · exact returns_ok _
           · rcases decodeName_cases p ((endq + 10 : Nat) : Int) with ⟨cn, ce, hc⟩ | ⟨er, hc⟩
             · rw [hc]; simp only []; split <;> exact returns_ok _
